@@ -134,7 +134,9 @@ func caseTokenTable(c *Ctx, rel string, decl *ast.FuncDecl, wantString bool) map
 				}
 			}
 		}
-		return true
+		// nested switches (e.g. on the look-ahead character) refine the token chosen for the outer character: their
+		// assignments were collected with the outer clause above and their labels are not first characters
+		return false
 	})
 	return out
 }
